@@ -94,6 +94,11 @@ def _oracle(src, ast, extra, parsed):
     return check_roundtrip(src, parsed, ast)
 
 
+def _codepoint_one(doc):
+    parsed = common.impl_parse(doc, 0, ())
+    return parsed[0], check_roundtrip(doc, parsed, None)
+
+
 def _corpus_one(doc):
     parsed = common.impl_parse(doc, 0, ())
     return parsed[0], check_roundtrip(doc, parsed, None, corpus=True)
@@ -141,6 +146,9 @@ def correspondence(ctx):
                    impl=a[:300], model=b[:300])
     import lib_gram
     lib_gram.run(ctx, r, ctx.pick(60000, 600000), ctx.pick(3, 4))   # documents of the proved grammar
+    # one well-formed document per code point beyond ASCII (sampled in the quick tier, all of them in the thorough one)
+    import parsecorr
+    parsecorr.run_cases(r, [(d, 0, ()) for d in gen.codepoint_docs(ctx.rng('cp'), ctx.thorough)], tag='codepoint')
     r.rule = ('`parse` (tolerance 0, with the document\'s skip_envs) compared textually, positions and serialisation '
               'included, on ' + RULE_DOCS % ctx.pick(6, 12) + '; plus the repository corpus')
     return r
@@ -161,6 +169,13 @@ def oracle(ctx, seeds, scale):
         res += L.run_jobs(L.eval_docs, _jobs(ctx, 'more', extra, False))
     st = L.merge_jobs(res, None, r)
     st.into(r)
+    # one well-formed document per code point beyond ASCII: plain text wherever it stands
+    cps = gen.codepoint_docs(ctx.rng('cp'), ctx.thorough)
+    for d, (line, verdicts) in zip(cps, gen.pmap(_codepoint_one, cps, chunk=2000)):
+        r.count(('codepoint', d), True)
+        for key, what, info in verdicts:
+            r.fail(key, what, input=d)
+    r.bump('codepoint_documents', len(cps))
     # corpus: the round trip is required only when the document parses (and its arguments are adjacent)
     docs = gen.corpus()
     unparsed = []
